@@ -36,13 +36,15 @@ CONSTANTS
   MaxSess,      \* attachment sessions per client
   MaxCompact,   \* compactions
   MaxUndo,      \* undo/redo calls per client
+  MinLen,       \* a behaviour may also finish once it has this many steps (lifecycle
+                \* features can make it impossible to use up the edit budget)
   BuildBack,    \* Build(n) rebuilds the document at head-n for n in 0..BuildBack
   SyncWeight    \* simulation only: how many times the Sync disjunct is replicated (TLC's
                 \* simulator picks uniformly among generated successors; a large
                 \* alphabet would otherwise starve syncs). No effect on the state graph.
 
 FeatAll == {"detach", "reattach", "remove", "compact", "force", "deactivate", "pushonly",
-            "gcoff", "build", "evict", "undo", "lateattach", "idle", "fail", "nopres"}
+            "gcoff", "build", "evict", "undo", "lateattach", "idle", "fail", "nopres", "kf-deactivate-removed"}
 
 Doc == "d1"
 Clients == {ClientSeq[i] : i \in DOMAIN ClientSeq}
@@ -259,6 +261,9 @@ Remove(c) ==
 \* clear made by the server on the client's behalf, then DB.DeactivateClient
 Deactivate(c) ==
   /\ ~done /\ SetupOver /\ "deactivate" \in Feat /\ cl[c].active /\ cl[c].st \in {"attached", "detached"}
+  \* guard of known finding KF-DEACTIVATE-REMOVED-DOC (filter inside Next): not while
+  \* the client is still attached to a document that a peer has removed
+  /\ ("kf-deactivate-removed" \in Feat \/ ~(srv.removed /\ srv.ci[c].st = "attached"))
   /\ LET ci == srv.ci[c]
          att == ci.st = "attached"
          s2 == IF att
@@ -297,7 +302,7 @@ Evict ==
   /\ UNCHANGED <<cl, done>>
 
 AllEdited == \A c \in Editors : cl[c].edits = MaxEdits
-Finish == ~done /\ AllEdited /\ done' = TRUE /\ UNCHANGED <<srv, cl, hist>>
+Finish == ~done /\ SetupOver /\ (AllEdited \/ Len(hist) >= MinLen) /\ done' = TRUE /\ UNCHANGED <<srv, cl, hist>>
 
 Next ==
   \/ \E c \in Clients :
